@@ -41,7 +41,7 @@ def _cont(rng):
 
 
 INVALID_CLASSES = ("overlong2", "overlong3", "overlong4", "surrogate", "beyond", "lead_f5_ff", "lead_c0_c1",
-                   "stray_cont", "truncated", "bad_second", "bad_third", "bad_fourth")
+                   "stray_cont", "truncated", "bad_second", "bad_third", "bad_fourth", "interrupted")
 
 
 def _invalid_core(rng, cls):
@@ -66,6 +66,11 @@ def _invalid_core(rng, cls):
         return bytes([lead, rng.choice((0x00, 0x7F, 0xC0, 0xFF, 0x41))])
     if cls == "bad_third":
         return bytes([rng.choice((0xE1, 0xEE, 0xF1)), _cont(rng), rng.choice((0x7F, 0xC0, 0x20))])
+    if cls == "interrupted":
+        # a multi-byte sequence interrupted by an ASCII byte and then 'completed': lead, ASCII, continuation(s)
+        ch = chr(rng.choice((0xE9, 0x20AC, 0x1F600, 0x7FF, 0x800, 0x10FFFF))).encode("utf-8")
+        k = rng.randrange(1, len(ch))
+        return ch[:k] + bytes([rng.choice((0x41, 0x0A, 0x00, 0x7F, 0x20))]) + ch[k:]
     if cls == "bad_fourth":
         return bytes([rng.choice((0xF1, 0xF2, 0xF3)), _cont(rng), _cont(rng), rng.choice((0x7F, 0xC0, 0x20))])
     raise ValueError(cls)
@@ -94,7 +99,8 @@ CATALOGUE = [("valid", "aé€\U0001F600z".encode()), ("valid", "\U0010FFFF￿".
              ("overlong3", b"a\xe0\x9f\xbfb"), ("overlong4", b"\xf0\x8f\xbf\xbf"), ("surrogate", b"\xed\xa0\x80"),
              ("surrogate", b"ok\xed\xbf\xbf"), ("beyond", b"\xf4\x90\x80\x80"), ("lead_f5_ff", b"\xf5\x80\x80\x80"),
              ("lead_f5_ff", b"\xff"), ("stray_cont", b"\x80"), ("stray_cont", b"a\xbfb"), ("bad_second", b"\xe2\x28\xa1"),
-             ("bad_third", b"\xe2\x82\x28"), ("bad_fourth", b"\xf0\x9f\x98\x28"), ("valid", b""), ("valid", b"\x00")]
+             ("bad_third", b"\xe2\x82\x28"), ("bad_fourth", b"\xf0\x9f\x98\x28"), ("valid", b""), ("valid", b"\x00"),
+             ("interrupted", b"\xc3A\xa9"), ("interrupted", b"\xe2\x82A\xac"), ("interrupted", b"\xf0\x9f\x98\n\x80"), ("interrupted", b"\xe2A\x82\xac")]
 
 
 def plan(tier, seed):
